@@ -8,7 +8,9 @@ git -C /repo diff --quiet || { echo "repo dirty"; exit 9; }
 git -C /repo apply "$D/patch.diff" || exit 9
 /venv/bin/python "$D/demo.py" >/dev/null 2>&1; echo "demo on seeded tree: exit $?"
 /venv/bin/python -m pytest -q -p no:cacheprovider --timeout=900 --continue-on-collection-errors 2>&1 | tail -1
+cp /verif/evidence/$P.json /tmp/try_seed.evidence 2>/dev/null
 cd /verif && ./check "$P" --tier "$T" > /tmp/try_seed.out 2>&1; RC=$?
+cp /tmp/try_seed.evidence /verif/evidence/$P.json 2>/dev/null
 grep -E "^(VIOLATION|INCONCLUSIVE|ENGINE-ERROR|KNOWN)" /tmp/try_seed.out | head -5; tail -1 /tmp/try_seed.out
 echo "check exit $RC"
 git -C /repo checkout -- . ; find /repo -name __pycache__ -prune -exec rm -rf {} + 2>/dev/null
